@@ -30,8 +30,8 @@ namespace Atree
 namespace C04
 
 /-- The roots of the encode / commit paths are what they were when the lists below were reviewed:
-    `EncodeSlab`, the 17 `Encode` methods (slabs, extra data, elements, storables — and
-    `BasicSlabStorage.Encode`, which merely shares the name), the five methods of `InlinedExtraData`,
+    `EncodeSlab`, the 16 `Encode` methods (slabs, extra data, elements, storables — and
+    `BasicSlabStorage.Encode`, which merely shares the name), the five other methods of `InlinedExtraData`,
     and the three commit functions of `PersistentSlabStorage`. -/
 theorem encode_path_roots :
     Gen.encodePathRoots = [
